@@ -50,12 +50,71 @@ class Recorder:
         self.next_level_calls = []  # levels created
         self.simulate_levels = []  # level of every simulate call (for the "never above maximum" oracle)
         self.events = []  # coarse trajectory of the run
+        self.batch_sizes = {}  # level -> number of samples simulated in each batch (the tally of the work: reference_work)
+        self.measured = {}  # level -> batch of the last sample simulated since reset_one_simulation_cost ("measured" costs)
 
     def __deepcopy__(self, memo):
         return self
 
     def __reduce__(self):
         return _recorder_by_uid, (self._uid,)
+
+
+# ----------------------------------------------------------------------------------------------------------------------
+# cost of one simulation, per level (what one_simulation_cost returns): value classes and forms
+# ----------------------------------------------------------------------------------------------------------------------
+_IRREGULAR = (0.9, 3, 0.31, 2.6, 0.07, 5.3, 1, 0.45, 7.7, 0.2, 11.5, 0.6)  # neither monotone nor geometric; ints among them
+
+COST_KINDS = (
+    "pow2",  # float(2**l): the historical cost, integer VALUED (Python float)
+    "pow2-int",  # 2**l as a Python int (LevyProcess.one_simulation_cost returns the int 0)
+    "frac",  # 0.37 * 2**l as numpy float64: what the library's chains return, intensity * (dimension + log(states))
+    "tiny",  # 0.0137 * 1.5**l: a whole pass costs less than 1 (low intensity, coarse grid, few paths)
+    "large",  # 3.3e9 * 2**l + 0.25 (numpy float64): beyond the 32-bit integers, fractional part within the precision
+    "huge",  # 1.7e19 * 2**l: a pass costs more than 2**63
+    "irregular",  # a table that is neither monotone nor geometric in the level (Python floats and ints)
+    "measured",  # 0.37 * 2**l * (1 + b / 4), b = batch (pass) the level's last sample belongs to: a cost measured while
+    #              simulating (as the copula coupling's sampling cost), differs from pass to pass
+    "zero-int",  # the int 0 of LevyProcess / Simulation (fixed-level variant only: the allocation with zero costs is C06's)
+)
+
+
+def level_cost(kind, level, batch=None):
+    """The value (and form) the scripted coupling of that cost kind returns for one simulation of a level whose last
+    sample since reset_one_simulation_cost was simulated in batch `batch` (None: no sample since)."""
+    if kind == "pow2":
+        return float(2 ** level)
+    if kind == "pow2-int":
+        return 2 ** level
+    if kind == "frac":
+        return np.float64(0.37) * np.float64(2 ** level)
+    if kind == "tiny":
+        return 0.0137 * 1.5 ** level
+    if kind == "large":
+        return np.float64(3.3e9 * 2 ** level + 0.25)
+    if kind == "huge":
+        return 1.7e19 * 2 ** level
+    if kind == "irregular":
+        return _IRREGULAR[level % len(_IRREGULAR)]
+    if kind == "measured":
+        return np.float64(0.37 * 2 ** level) * np.float64(1.0 + 0.25 * (batch or 0))
+    if kind == "zero-int":
+        return 0
+    raise ValueError(kind)
+
+
+def reference_work(kind, batch_sizes, nlev):
+    """Exact (rational) work of the simulated samples per level: every sample of batch b of level l costs level_cost(kind, l,
+    b); batch_sizes: level -> list of the number of samples simulated in each batch (Recorder.batch_sizes)."""
+    from fractions import Fraction
+
+    out = []
+    for level in range(nlev):
+        w = Fraction(0)
+        for b, n in enumerate(batch_sizes.get(level, ())):
+            w += Fraction(float(level_cost(kind, level, b))) * int(n)
+        out.append(w)
+    return out
 
 
 def w_k(k: int) -> float:
@@ -111,9 +170,12 @@ class ScriptedCoupling:
     """Duck-typed CouplingProcess. Level 0 samples: fine = m + s*w_k (coarse is set to 0 by the engine).
     Level l>=1 samples: coarse = 1000*l + k (unique id), fine = coarse + m_l + s_l*w_k."""
 
-    def __init__(self, recorder: Recorder, df=1.0, maturity=1.0):
+    def __init__(self, recorder: Recorder, df=1.0, maturity=1.0, cost="pow2"):
         from rpylib.process.process import ProcessRepresentation
 
+        if cost not in COST_KINDS:
+            raise ValueError(cost)
+        self.cost = cost  # kind of the one-simulation cost per level (COST_KINDS); "pow2" = float(2**level), the historical one
         self.rec = recorder
         self.model = ScriptedModel(ProcessRepresentation.IDENDITY)
         self.fine_process = ScriptedFine(ProcessRepresentation.IDENDITY, df)
@@ -131,10 +193,10 @@ class ScriptedCoupling:
         self.rec.pending[self.level] = True
 
     def reset_one_simulation_cost(self):
-        pass
+        self.rec.measured[self.level] = None
 
     def one_simulation_cost(self, product):
-        return float(2 ** self.level)
+        return level_cost(self.cost, self.level, self.rec.measured.get(self.level))
 
     def next_level(self, mc_paths, path_managers, product, max_step_epsilon=None):
         self.level += 1
@@ -161,6 +223,9 @@ class ScriptedCoupling:
             rec.regime[lvl] = rec.regimes[c]
             rec.regime_log.append((lvl, b, rec.regime[lvl][0]))
             rec.pending[lvl] = False
+            rec.batch_sizes.setdefault(lvl, []).append(0)
+        rec.batch_sizes[lvl][-1] += 1
+        rec.measured[lvl] = len(rec.batch_sizes[lvl]) - 1
         name, mf, sf, mdec, sdec = rec.regime[lvl]
         lst = rec.samples.setdefault(lvl, [])
         k = len(lst)
